@@ -144,3 +144,57 @@ Example C04_purge_below_probe_deadline :
   option_map a_online (abs (run dl_cfg dl_s0 (dl_history 75)) (IP4 3232235522)) = Some true.
 Proof. exact purge_below_probe_example. Qed.
 Print Assumptions C04_purge_below_probe_deadline.
+
+(* ---- every API call of the statement is a step of the model, each with its own refinement theorem
+   (hypotheses: the C05 invariant and Inv4, which every reachable state has: C04_history_inv) ---- *)
+Theorem C04_api_Parse : forall c s f now, Inv s -> Inv4 s -> fsum_wf f ->
+  forall k, abs (fst (step c s (Rx f now))) k =
+            match ref_event c f with Some (m, k0) => sight m k0 now (abs s) k | None => abs s k end.
+Proof. exact api_parse_proof. Qed.
+Print Assumptions C04_api_Parse.
+
+Theorem C04_api_Notify : forall c s, Inv s -> Inv4 s -> forall k, abs (fst (step c s Notify)) k = abs s k.
+Proof. exact api_notify_proof. Qed.
+Print Assumptions C04_api_Notify.
+
+Theorem C04_api_DHCPv4Update : forall c s m k0 name now, Inv s -> Inv4 s ->
+  forall k, abs (fst (step c s (DHCPv4Update m k0 name now))) k =
+            if is_valid k0 && negb (is_unspecified k0) then sight m k0 now (abs s) k else abs s k.
+Proof. exact api_dhcp_update_proof. Qed.
+Print Assumptions C04_api_DHCPv4Update.
+
+Theorem C04_api_SetDHCPv4IPOffer : forall c s m k0 name, Inv s -> Inv4 s ->
+  forall k, abs (fst (step c s (SetOffer m k0 name))) k = abs s k.
+Proof. exact api_set_offer_proof. Qed.
+Print Assumptions C04_api_SetDHCPv4IPOffer.
+
+Theorem C04_api_Capture : forall c s m, Inv s -> Inv4 s -> forall k, abs (fst (step c s (Capture m))) k = abs s k.
+Proof. exact api_capture_proof. Qed.
+Print Assumptions C04_api_Capture.
+
+Theorem C04_api_Release : forall c s m, Inv s -> Inv4 s -> forall k, abs (fst (step c s (Release m))) k = abs s k.
+Proof. exact api_release_proof. Qed.
+Print Assumptions C04_api_Release.
+
+Theorem C04_api_purge : forall c s now order, Inv s -> Inv4 s -> order_complete s (Purge now order) ->
+  forall k, abs (fst (step c s (Purge now order))) k = age c now (abs s) k.
+Proof. exact api_purge_proof. Qed.
+Print Assumptions C04_api_purge.
+
+Theorem C04_api_UpdateName : forall c s kd k0 name, Inv s -> Inv4 s ->
+  forall k, abs (fst (step c s (NameUpdate kd k0 name))) k = abs s k.
+Proof. exact api_name_update_proof. Qed.
+Print Assumptions C04_api_UpdateName.
+
+(* NewSession's acceptance of the three deadlines is part of the model (kind dl compares it with Config.NewSession on a
+   grid): it bounds each deadline and enforces Probe <= Offline only *)
+Theorem C04_deadlines_accepted : forall p o u, deadlines_okb p o u = true -> (p <> 0 -> o <> 0 -> u <> 0 ->
+  0 < p <= max_probe /\ p <= o <= max_offline /\ 0 < u <= max_purge)%Z.
+Proof. exact deadlines_ok_order. Qed.
+Print Assumptions C04_deadlines_accepted.
+
+Example C04_deadlines_purge_unconstrained :
+  deadlines_okb 120 300 60 = true /\ deadlines_okb 60 300 120 = true /\ deadlines_okb 120 300 3660 = true /\
+  deadlines_okb 300 120 3660 = false /\ deadlines_okb default_probe default_offline default_purge = true.
+Proof. exact deadlines_purge_free. Qed.
+Print Assumptions C04_deadlines_purge_unconstrained.
